@@ -205,6 +205,14 @@ pub fn build(case: &Case, ctx: &mut CaseCtx) -> Built {
                 }
                 required.insert(Key::Addr(cands[s].to_string()));
             }
+            // an address in two roles: the second admin also holds permissions (granted by the first) - a
+            // stored entry like any other
+            if case.variant % 3 == 1 {
+                let permissions = Permissions { delegate: true, redelegate: false, undelegate: true, withdraw: false };
+                must(exec(&mut d, &admin, ExecuteMsg::SetPermissions { spender: admin2.to_string(), permissions }), "set permissions for the other admin");
+                required.insert(Key::Addr(admin2.to_string()));
+                ctx.count("subkeys_permissions_for_an_admin");
+            }
             // allowances live in another map and must not leak into this listing
             let stranger = d.api.addr_make("only-allowance");
             must(
